@@ -1,5 +1,6 @@
 """C09 - a pattern is accepted only as a whole sentence of the documented pattern grammar."""
 import json
+import re
 import os
 import random
 
@@ -117,6 +118,11 @@ def run(ck):
     for p in pool:
         edits |= single_edits(p, ALPHA_FULL)
     edits -= set(c["text"] for c in canon)
+    # an edit can turn a small range into one of 10^5 code points ([a-\x1F600]); such a range is expanded code point by code
+    # point (C14, HUGE-RANGE) and sixteen of them in parallel exhaust the memory: ranges ending beyond U+1000 are left out
+    edits = set(e for e in edits if not any(int(h, 16) > 0x1000 for h in re.findall(r"-\\x([0-9A-Fa-f]{4,8})", e)))
+    # the same for a repetition of a class of 10^5 code points: followpos of \p{Han}* is quadratic in the class (65 GB)
+    edits = set(e for e in edits if not (("Han" in e or "\\P{" in e) and re.search(r"[*+{]", re.sub(r"\\[pP]\{[^}]*\}?", "", e))))
     # names that are NOT documented categories: every key of the implementation's own rune-class table and a list of plausible
     # ones, inside \\p{..} / \\P{..} - all of them must be rejected
     keys = json.loads(ck.run_harness(["class-keys"]).stdout)
